@@ -695,12 +695,33 @@ class Engine:
         if isinstance(o, (SStr, SMatch, STuple, SConstSeq, SInt, SBool)) or isinstance(o, SRef):
             return k(st, SFunc("method", attr, bound_self=o))
         if isinstance(o, SDyn):
+            owners = self.dyn_data_owners(attr)
+            if owners:
+                # a data attribute that exactly one class family declares (e.g. NameParts.first): the value must be an
+                # object of that family, anything else has no such attribute
+                owner = owners[0]
+                ref = SRef(PyVal.rval(o.t), "ref:" + owner)
+                if st.spec:
+                    return self.get_attr(ref, attr, st, fr, k)
+                isobj = z3.And(PyVal.is_RefV(o.t), z3.Or([self.cls_term(st, PyVal.rval(o.t)) == self.class_ids[c] for c in self.concrete_subclasses(owner)]))
+                return self.branch(st, isobj, lambda s: self.get_attr(ref, attr, s, fr, k),
+                                   lambda s: self.raise_new(s, "AttributeError"), f"dyn.{attr}")
             return k(st, SFunc("dynattr", attr, bound_self=o))
         if isinstance(o, SFunc) and o.what == "super":
             return k(st, self.super_attr(o, attr, st, fr))
         if isinstance(o, SNone):
             return self.raise_new(st, "AttributeError")
         raise EngineError(f"attribute {attr} of {o!r}")
+
+    def dyn_data_owners(self, attr):
+        """classes whose schema declares `attr` as a data attribute, when no repo class has a method / property of that
+        name and the declaring classes form one family (else [])"""
+        cache = self.__dict__.setdefault("_dyn_owner_cache", {})
+        if attr not in cache:
+            owners = [c for c, attrs in self.schema.items() if attr in attrs and c in self.repo.classes]
+            clash = any(attr in ci.methods or attr in ci.properties for ci in self.repo.classes.values())
+            cache[attr] = owners if (len(owners) == 1 and not clash) else []
+        return cache[attr]
 
     def get_attr_resolved(self, o, attr, res, st, fr, k):
         if res[0] == "data":
@@ -1276,6 +1297,15 @@ class Engine:
             return self.branch(st, o.t != 0, lambda s: self.set_attr(SRef(o.t, o.inner), attr, v, s, fr, k),
                                lambda s: self.raise_new(s, "AttributeError"), "optref-store")
         if isinstance(o, SDyn):
+            owners = self.dyn_data_owners(attr)
+            if owners:
+                owner = owners[0]
+                ref = SRef(PyVal.rval(o.t), "ref:" + owner)
+                isobj = z3.And(PyVal.is_RefV(o.t), z3.Or([self.cls_term(st, PyVal.rval(o.t)) == self.class_ids[c] for c in self.concrete_subclasses(owner)]))
+                # storing a new attribute on some other object is outside the schema: obligation that it is the declaring class
+                self.oblige(st, "type", f"store-{attr}-on-{owner}", isobj, f"store to .{attr} of a dynamic value that is not known to be a {owner}")
+                st.assume(isobj)
+                return self.set_attr(ref, attr, v, st, fr, k)
             return bm.dyn_set_attr(self, o, attr, v, st, fr, k)
         raise EngineError(f"attribute store on {o!r}")
 
